@@ -5,7 +5,10 @@ search for anything of a removed component that is still reachable.
 A spec (dict) describes ONE component by what its own `construct` declares:
   uid, nin, nout, k            class id, ports in0.. / out0.. (Bits8), constructor argument
   wires                        names of Wire(Bits8)
-  mport                        True: `@method_port def ping(s)` (a callee port)
+  mport                        True: `@method_port def ping(s)` (a callee port) that bumps the counter `s.cnt`; a block with
+                               'pub' publishes `s.cnt` (only the block that an M constraint orders against `ping`, so the
+                               schedule — and the trace — is determined)
+  blk 'mcalls'                 refs of method ports the block calls: `s.<slot>.ping()` (parent update_once calling the child)
   caller                       [slot] or None: `s.cp = CallerPort(); connect(s.cp, s.<slot>.ping)`
   items                        ordered: {'t':'blk', name, kind comb|ff|once, reads, writes, op, func}
                                         {'t':'kid', slot, spec}        slot = 'c0' or list element 'd0[1]'
@@ -39,16 +42,17 @@ class Gen:
   def __init__(self, rng, uid0=0):
     self.rng = rng
     self.uid = uid0
+    self.feat = {}
 
   def new_uid(self):
     self.uid += 1
     return self.uid
 
-  def spec(self, nin, nout, depth, k=None, feat=None):
+  def spec(self, nin, nout, depth, k=None, feat=None, mport=None):
     rng = self.rng
-    feat = feat or {}
+    feat = feat or self.feat
     s = {'uid': self.new_uid(), 'ph': False, 'nin': nin, 'nout': nout, 'k': rng.randint(0, 9) if k is None else k,
-         'wires': [], 'mport': rng.random() < feat.get('mport', 0.15), 'caller': None, 'items': [],
+         'wires': [], 'mport': (rng.random() < feat.get('mport', 0.2)) if mport is None else mport, 'caller': None, 'items': [],
          'conns': [], 'consts': [], 'uu': [], 'rdu': [], 'wru': [], 'mcs': []}
     avail = [[[], f'in{i}'] for i in range(nin)]
     nblk = rng.randint(0, 3)
@@ -80,11 +84,15 @@ class Gen:
       for i in range(cin):
         port = [[slot], f'in{i}']
         r = rng.random()
-        if r < 0.5 and avail: connect(port, rng.choice(avail))
+        if rng.random() < feat.get('ffkid', 0.0): new_blk('ff', [port])
+        elif r < 0.5 and avail: connect(port, rng.choice(avail))
         elif r < 0.65: s['consts'].append([port, rng.randint(0, 255)])
         else: new_blk('comb', [port])
       s['items'].append({'t': 'kid', 'slot': slot, 'spec': sub})
       for i in range(cout): avail.append([[slot], f'out{i}'])
+      if sub['mport'] and rng.random() < feat.get('mcall', 0.6):
+        b = new_blk('once', [], nreads=0)
+        b['mcalls'] = [[[slot], 'ping']]
 
     i = 0
     while i < len(plan):
@@ -125,7 +133,7 @@ class Gen:
   def constraints(self, s, feat):
     rng = self.rng
     blks = [(i, it) for i, it in enumerate(s['items']) if it['t'] == 'blk']
-    sched = [(i, b) for i, b in blks if b['kind'] != 'ff']
+    sched = [(i, b) for i, b in blks if b['kind'] != 'ff' and not b.get('mcalls')]   # the calling block is ordered by M only
     pcons = feat.get('cons', 0.5)
     # U(a) < U(b), forward in item order
     for (i, a), (j, b) in itertools.combinations(sched, 2):
@@ -146,8 +154,10 @@ class Gen:
         if j <= wr[0] and rng.random() < pcons * 0.3: s['rdu'].append([ref, False, b['name']])   # RD(w) > U(b)
     if s['mport'] and sched:
       _, b = rng.choice(sched)
-      if rng.random() < 0.5: s['mcs'].append([['m', [[], 'ping']], ['u', b['name']], False])
-      else: s['mcs'].append([['u', b['name']], ['m', [[], 'ping']], False])
+      if rng.random() < feat.get('mcons', 0.7):
+        if rng.random() < 0.6: s['mcs'].append([['m', [[], 'ping']], ['u', b['name']], False])
+        else: s['mcs'].append([['u', b['name']], ['m', [[], 'ping']], False])
+        if b['writes']: b['pub'] = True
 
 def kids(spec):
   return [(it['slot'], it['spec']) for it in spec['items'] if it['t'] == 'kid']
@@ -197,6 +207,7 @@ def cname(spec, sfx):
 def class_source(spec, sfx, out):
   for _, subspec in kids(spec): class_source(subspec, sfx, out)
   L = [f'class {cname(spec, sfx)}( {"Placeholder, " if spec.get("ph") else ""}Component ):', '  def construct( s, k=1 ):']
+  if spec['mport'] or spec.get('nbifc'): L.append('    s.cnt = 0')
   for i in range(spec['nin']): L.append(f'    s.in{i} = InPort( Bits8 )')
   for i in range(spec['nout']): L.append(f'    s.out{i} = OutPort( Bits8 )')
   for w in spec['wires']: L.append(f'    s.{w} = Wire( Bits8 )')
@@ -212,14 +223,18 @@ def class_source(spec, sfx, out):
     L.append(f'    connect( s.cp, s.{spec["caller"][0]}.ping )')
   for a, b in spec['conns']: L.append(f'    connect( {pyref(a)}, {pyref(b)} )')
   for a, v in spec['consts']: L.append(f'    {pyref(a)} //= {v}')
+  for raw in spec.get('raw', []): L.append('    ' + raw)
   for it in spec['items']:
     if it['t'] != 'blk': continue
     asg = '<<=' if it['kind'] == 'ff' else '@='
     body = []
     for n, w in enumerate(it['writes']):
-      terms = [pyref(r) for r in it['reads']] + [f'(k + {n})']
+      terms = [pyref(r) for r in it['reads']] + [f'(k + {n})'] + (['Bits8( s.cnt )'] if it.get('pub') else [])
       body.append(f'{pyref(w)} {asg} ' + f' {it["op"]} '.join(terms))
+    if it.get('body'): body = list(it['body'])
     if it.get('calls_cp'): body.append('s.cp()')
+    for r in it.get('mcalls', []): body.append(pyref(r) + '()')
+    if not body: body.append('pass')
     if it['func']:
       L.append('    @s.func')
       L.append(f'    def f_{it["name"]}():')
@@ -238,8 +253,11 @@ def class_source(spec, sfx, out):
     L.append('    s.add_constraints(')
     L += [f'      {c},' for c in cons]
     L.append('    )')
+  for raw in spec.get('raw_end', []): L.append('    ' + raw)
+  if spec.get('nbifc'):
+    L += ['  @non_blocking( lambda s: True )', '  def enq( s, x ):', '    s.cnt = ( s.cnt + x ) & 255']
   if spec['mport']:
-    L += ['  @method_port', '  def ping( s ):', '    pass']
+    L += ['  @method_port', '  def ping( s ):', f'    s.cnt = ( s.cnt + {1 + spec["uid"] % 3} ) & 255']
   out.append('\n'.join(L))
 
 def module_source(spec, sfx):
@@ -271,7 +289,8 @@ def hier(spec, pre=()):
   blks = []
   for it in spec['items']:
     if it['t'] != 'blk': continue
-    calls = ([[[], 'f_' + it['name']]] if it['func'] else []) + ([[[], 'cp']] if it.get('calls_cp') else [])
+    calls = ([[[], 'f_' + it['name']]] if it['func'] else []) + ([[[], 'cp']] if it.get('calls_cp') else []) + \
+            it.get('mcalls', [])
     blks.append([it['name'], {'comb': 0, 'ff': 1, 'once': 2}[it['kind']], it['reads'], it['writes'], calls])
   conns = list(spec['conns'])
   for slot, _ in kids(spec):
@@ -285,7 +304,7 @@ def hier(spec, pre=()):
   return out
 
 FIELDS = ('comp', 'sig', 'mport', 'blk', 'ff', 'once', 'read', 'write', 'call', 'uu', 'rdu', 'wru', 'mc', 'edge',
-          'net', 'mnet')
+          'net', 'mnet', 'dbuf')
 
 def split_fields(entries):
   """rendered entries -> {field: sorted list}"""
@@ -310,6 +329,7 @@ def get_obj(top, path):
 
 def observe(top):
   """by-name rendering of every queryable whole-design container, in the driver's dump format"""
+  import types
   from pymtl3.dsl import CalleePort, CallerPort, Const, InPort, MethodPort, OutPort, Signal, Wire
   host = top._dsl.all_upblk_hostobj
   def blk(f):
@@ -323,7 +343,7 @@ def observe(top):
       return f'(const {owner} {nb[0] if len(nb) == 1 else "<" + str(len(nb)) + ">"} {int(x._dsl.const)})'
     return repr(x)
   def target(b, x):
-    if callable(x) and not isinstance(x, MethodPort):
+    if isinstance(x, types.FunctionType):
       return f'{repr(host[b]) if b in host else "<dead>"}.{x.__name__}'
     return repr(x)
   E = []
@@ -347,10 +367,11 @@ def observe(top):
     for v, cs in d.items():
       E += [f'({tag} {repr(v)} {1 if sign == 1 else 0} {blk(f)})' for sign, f in cs]
   def mref(x):
-    return f'(m {repr(x)})' if isinstance(x, MethodPort) else f'(u {blk(x)})'
+    return f'(u {blk(x)})' if isinstance(x, types.FunctionType) else f'(m {repr(x)})'
   E += [f'(mc {mref(x)} {mref(y)} {1 if eq else 0})' for x, y, eq in mc]
   for k, vs in top.get_signal_adjacency_dict().items():
     E += [f'(edge {node(k)} {node(v)})' for v in vs]
+  E += [f'(dbuf {repr(x)})' for x in sigs | top._dsl.all_signals if x._dsl.needs_double_buffer]
   for w, net in top.get_all_value_nets():
     E.append(f'(net {node(w) if w is not None else "none"} ({" ".join(sorted(node(x) for x in net))}))')
   for w, net in top.get_all_method_nets():
@@ -374,8 +395,8 @@ def scan(top):
   out = []
   def bad(x):
     if isinstance(x, NamedObject):
-      if repr(x).startswith('<deleted>'): return 'deleted ' + repr(x)
-      if x not in live: return 'unreachable ' + repr(x)
+      if repr(x).startswith('<deleted>'): return f'deleted {repr(x)} <{type(x).__name__}>'
+      if x not in live: return f'unreachable {repr(x)} <{type(x).__name__}>'
     elif isinstance(x, Const):
       if x not in live_consts: return 'dead-const ' + repr(x)
     elif isinstance(x, types.FunctionType):
@@ -399,4 +420,12 @@ def scan(top):
     for name, val in vars(c._dsl).items():
       if name in ('parent_obj', 'elaborate_top', 'param_tree', 'args', 'kwargs') or name.startswith('all_'): continue
       if isinstance(val, (dict, set, list, tuple)): walk('local.' + name, val, 0)
+  for x in live:
+    if x not in top._dsl.all_named_objects:
+      out.append(('top.all_named_objects', f'unregistered {repr(x)} <{type(x).__name__}>', ''))
+  # a constant of a live component that is connected to nothing (its signal was removed)
+  adj = top._dsl.all_adjacency
+  for c in comps:
+    for k in c._dsl.consts:
+      if not adj.get(k): out.append(('local.consts', f'orphan-const {repr(k)} of {repr(c)}', ''))
   return sorted(set(out))
